@@ -302,3 +302,50 @@ def windows_spelling_pairs(chk):
                 if a != b:
                     _viol(chk, 'C17', 'escaped_backslash_and_slash_spell_the_same_separator_also_around_a_UNC_prefix', f'globmatch({name!r}, {bsl!r}, {fn}) is {a} but with the separators written `/` ({sl!r}) it is {b}',
                           f"from wcmatch import glob\nprint(glob.globmatch({name!r}, {bsl!r}, flags={fl}), glob.globmatch({name!r}, {sl!r}, flags={fl}))", pattern=bsl, name=name, fl=fn)
+
+
+BASH_PATTERNS = ['*', '*/', '**', '**/', '**/a', '**/*.txt', 'd/**', 'd/**/a', '*/*', '*/*/', '?', '?.txt', '[ab]*', '[!a]*', 'd/*', 'd/e/*', './*', 'd/../*', '.*', '.*/', '*/.*', '**/.*', 'd/.*',
+                 '@(a|d)', '@(a|d)/*', '+(a)', '*(a)b*', '?(b).txt', '*.@(txt|md)', 'd/@(a|e)', '**/@(a|e)', '+([a-d])', 'c/*/*', '**/a/**', '[[:alpha:]]', '*[[:punct:]]*', 'b.tx[t]', 'nonexistent', 'd/nonexistent/*',
+                 'a/*', 'a/', 'd', 'd/', './d/./e/*', '**/e/**', '*/a', '?/?', 'b*', '*b*', '*.*', 'b\\.txt', '\\a']
+
+
+def bash_clause(chk, tier):
+    """C05: on the syntax the two share (negation-free, no empty alternatives), glob() returns what Bash 5.2 pathname expansion returns under the corresponding
+    shell options (globstar, extglob, dotglob; nullglob for 'no match'; globskipdots is Bash 5.2's default and corresponds to the forced NODOTDIR)."""
+    import shutil
+    import subprocess
+    from wcmatch import glob as G
+    bash = shutil.which('bash')
+    if not bash:
+        chk.note('bash not found: the Bash clause of C05 was not run')
+        return
+    ver = subprocess.run([bash, '-c', 'echo ${BASH_VERSINFO[0]}.${BASH_VERSINFO[1]}'], capture_output=True, text=True).stdout.strip()
+    if not ver.startswith('5.2'):
+        chk.note(f'bash {ver} is not 5.2: the Bash clause of C05 was not run')
+        return
+    combos = [(0, []), (G.G, ['globstar']), (G.E, ['extglob']), (G.D, ['dotglob']), (G.G | G.E, ['globstar', 'extglob']), (G.G | G.D, ['globstar', 'dotglob']), (G.G | G.E | G.D, ['globstar', 'extglob', 'dotglob'])]
+    n = 0
+    for tname in ('basic', 'nested') + (('case',) if tier != 'quick' else ()):
+        spec = trees.NAMED[tname]
+        with trees.Tree(spec) as t:
+            for fl, opts in combos:
+                for p in BASH_PATTERNS:
+                    if ('(' in p) and not (fl & G.E):
+                        continue          # without extglob a parenthesis is a shell syntax error, not a pattern
+                    if '**' in p and not (fl & G.G):
+                        continue          # without globstar Bash reads ** as *, wcmatch as two stars: both mean * - skipped to keep the oracle simple
+                    cmd = [bash, '-O', 'nullglob'] + [x for o in opts for x in ('-O', o)] + ['-c', f'printf "%s\\0" {p}']
+                    r = subprocess.run(cmd, cwd=t.root, capture_output=True)
+                    # a word without a match stays as typed only when it has no pattern character (then it is not an expansion at all): keep what exists
+                    want = sorted({x.decode().rstrip('/') for x in r.stdout.split(b'\0') if x and os.path.lexists(os.path.join(t.root, x.decode()))})
+                    got = sorted({x.rstrip('/') for x in G.glob(p, flags=fl | G.U, root_dir=t.root)})
+                    n += 1
+                    chk.case(key=('bash', tname, p, fl), nontrivial=bool(want))
+                    if got != want:
+                        sig = dict(obligation='C05.bounded.glob==bash-5.2', tree=tname, pattern=p, fl='|'.join(opts) or '-', kind='bash', witness=sorted(set(got) ^ set(want))[0])
+                        chk.violation(sig, f'tree {tname}, pattern {p!r}, shell options {opts}: glob returns {got}, Bash 5.2 expands to {want}',
+                                      f"import sys, subprocess; sys.path.insert(0, {REPO!r}); sys.path.insert(0, '/verif')\nfrom wcmatch import glob\nfrom vlib.harness import trees\n"
+                                      f"with trees.Tree(trees.NAMED[{tname!r}]) as t:\n    print(sorted(glob.glob({p!r}, flags={fl} | glob.U, root_dir=t.root)))\n"
+                                      f"    print(subprocess.run({cmd!r}, cwd=t.root, capture_output=True).stdout.split(b'\\0'))\nsys.exit(1)\n")
+    chk.bounds['c05_bash_cases'] = n
+    chk.assume('Bash 5.2 (installed: /bin/bash) is the oracle of the Bash clause on a fixed list of negation-free patterns; results are compared as sets, trailing separators ignored')
